@@ -100,6 +100,42 @@ pub fn run_case(
                     }
                 }
             }
+            // bounds set in the other order, and set twice (the last setting wins)
+            {
+                let small: Vec<&Key> = bk.iter().filter(|k| k.len() <= 1).collect();
+                let keep = |lo: Option<(bool, &[u8])>, hi: Option<(bool, &[u8])>| -> Vec<(Key, u64, usize)> {
+                    accepted
+                        .iter()
+                        .filter(|(k, _, _)| {
+                            lo.map_or(true, |(inc, b)| if inc { &k[..] >= b } else { &k[..] > b }) && hi.map_or(true, |(inc, b)| if inc { &k[..] <= b } else { &k[..] < b })
+                        })
+                        .cloned()
+                        .collect()
+                };
+                for k1 in &small {
+                    for k2 in &small {
+                        let cases: Vec<(&str, fst::raw::StreamBuilder<'_, &TableDfa>, fst::raw::StreamWithStateBuilder<'_, &TableDfa>, Vec<(Key, u64, usize)>)> = vec![
+                            ("le(k1).ge(k2)", f.search(aut).le(k1).ge(k2), f.search_with_state(aut).le(k1).ge(k2), keep(Some((true, k2)), Some((true, k1)))),
+                            ("lt(k1).gt(k2)", f.search(aut).lt(k1).gt(k2), f.search_with_state(aut).lt(k1).gt(k2), keep(Some((false, k2)), Some((false, k1)))),
+                            ("ge(k1).ge(k2)", f.search(aut).ge(k1).ge(k2), f.search_with_state(aut).ge(k1).ge(k2), keep(Some((true, k2)), None)),
+                            ("gt(k1).gt(k2)", f.search(aut).gt(k1).gt(k2), f.search_with_state(aut).gt(k1).gt(k2), keep(Some((false, k2)), None)),
+                            ("le(k1).le(k2)", f.search(aut).le(k1).le(k2), f.search_with_state(aut).le(k1).le(k2), keep(None, Some((true, k2)))),
+                            ("lt(k1).lt(k2)", f.search(aut).lt(k1).lt(k2), f.search_with_state(aut).lt(k1).lt(k2), keep(None, Some((false, k2)))),
+                            ("ge(k1).le(k2).ge(k1)", f.search(aut).ge(k1).le(k2).ge(k1), f.search_with_state(aut).ge(k1).le(k2).ge(k1), keep(Some((true, k1)), Some((true, k2)))),
+                        ];
+                        for (name, sb, wb, want) in cases {
+                            let got = drain(sb.into_stream())?;
+                            let gotw = drain_states(wb.into_stream())?;
+                            n += 2;
+                            let same = got.len() == want.len() && got.iter().zip(&want).all(|(g, w)| g.0 == w.0 && g.1 == w.1);
+                            let samew = gotw.len() == want.len() && gotw.iter().zip(&want).all(|(g, w)| g.0 == w.0 && g.1 == w.1 && g.2 == w.2);
+                            if !same || !samew {
+                                return Err(format!("search/search_with_state {} .{} with k1={} k2={} gave {} / {:?} expected {:?}", aut.describe(), name, key_str(k1), key_str(k2), kvs_str(&got), gotw, want));
+                            }
+                        }
+                    }
+                }
+            }
             if wrappers {
                 let m = Map::new(&bytes[..]).map_err(|e| format!("{:?}", e))?;
                 let s = Set::new(&bytes[..]).map_err(|e| format!("{:?}", e))?;
@@ -437,7 +473,7 @@ fn do_table(kvs: &[Kv], geom: Geom, auts: &Arc<Vec<TableDfa>>, bmax: usize, wrap
 pub fn plan(tier: Tier) -> Plan {
     let mut p = Plan::new("C04", "model_checking");
     let thorough = tier.thorough();
-    p.rule = "FST x bounds x generated contract-abiding automata: every table DFA with 1..2 states (thorough: 3) over two byte classes, every accepting set, every sound can_match assignment (true where an accepting state is reachable, free elsewhere); search and search_with_state through raw Fst (Map/Set wrappers on small sets); oracle = independent run of the table over each model key incl. the reported state; plus shipped automata/combinators/Levenshtein and regex-automata dense DFAs against specification predicates. every composition of depth <= 2 of AlwaysMatch/Str/Subsequence under StartsWith/Complement/Union/Intersection (real combinator types) against the explicit product DFA; wide nodes (fan-out 2..256, five label layouts incl. gaps below 0xff) searched with every byte as one- and two-byte lower bound under AlwaysMatch/Subsequence/six 2-state table DFAs; operands also passed by reference (impl Automaton for &T); a finite family of 480 (thorough 2400) DFAs with 3..8 states and weakened-but-sound hints per class function over the complete universe of keys of length <= 8 over two bytes; accept_eof is never overridden. non-trivial = distinct (automaton, FST) pairs with >= 2 keys".into();
+    p.rule = "FST x bounds x generated contract-abiding automata: every table DFA with 1..2 states (thorough: 3) over two byte classes, every accepting set, every sound can_match assignment (true where an accepting state is reachable, free elsewhere); search and search_with_state through raw Fst (Map/Set wrappers on small sets); oracle = independent run of the table over each model key incl. the reported state; plus shipped automata/combinators/Levenshtein and regex-automata dense DFAs against specification predicates. every composition of depth <= 2 of AlwaysMatch/Str/Subsequence under StartsWith/Complement/Union/Intersection (real combinator types) against the explicit product DFA; wide nodes (fan-out 2..256, five label layouts incl. gaps below 0xff) searched with every byte as one- and two-byte lower bound under AlwaysMatch/Subsequence/six 2-state table DFAs; operands also passed by reference (impl Automaton for &T); a finite family of 480 (thorough 2400) DFAs with 3..8 states and weakened-but-sound hints per class function over the complete universe of keys of length <= 8 over two bytes; bounds set upper-before-lower and the same bound set twice (last setting wins) on both automaton builders; accept_eof is never overridden. non-trivial = distinct (automaton, FST) pairs with >= 2 keys".into();
     p.assumptions = vec!["contract-abiding = deterministic table, sound can_match, default accept_eof".into()];
     let mut auts = all_dfas(1, ClassFn::IsA, false);
     auts.extend(all_dfas(2, ClassFn::IsA, false));
